@@ -28,11 +28,11 @@ SPEC = {
                     "discrepancies that disappear on retry / on a freshly started server are counted (classes transient_discrepancy_not_reproduced_on_retry, "
                     "discrepancy_not_reproduced_on_fresh_server) and logged, not failed: they are not re-executable"],
     "campaigns": [
-        {"name": "selectors", "run": "^TestSelectors$", "quick": B(12, 1, 600, shrinktime="20s"), "thorough": B(220, 1, 3000, shrinktime="60s")},
-        {"name": "range_functions", "run": "^TestRangeFuncs$", "quick": B(12, 2, 600, shrinktime="20s"), "thorough": B(220, 2, 3000, shrinktime="60s")},
-        {"name": "aggregations", "run": "^TestAggregations$", "quick": B(12, 1, 600, shrinktime="20s"), "thorough": B(220, 1, 3000, shrinktime="60s")},
-        {"name": "binary_operators", "run": "^TestBinops$", "quick": B(12, 1, 600, shrinktime="20s"), "thorough": B(300, 1, 3000, shrinktime="60s")},
-        {"name": "combinations", "run": "^TestCombos$", "quick": B(12, 2, 600, shrinktime="20s"), "thorough": B(220, 2, 3000, shrinktime="60s")},
+        {"name": "selectors", "run": "^TestSelectors$", "quick": B(12, 1, 600, shrinktime="20s"), "thorough": B(100, 1, 3000, shrinktime="60s")},
+        {"name": "range_functions", "run": "^TestRangeFuncs$", "quick": B(12, 2, 600, shrinktime="20s"), "thorough": B(100, 2, 3000, shrinktime="60s")},
+        {"name": "aggregations", "run": "^TestAggregations$", "quick": B(12, 1, 600, shrinktime="20s"), "thorough": B(100, 1, 3000, shrinktime="60s")},
+        {"name": "binary_operators", "run": "^TestBinops$", "quick": B(12, 1, 600, shrinktime="20s"), "thorough": B(120, 1, 3000, shrinktime="60s")},
+        {"name": "combinations", "run": "^TestCombos$", "quick": B(12, 2, 600, shrinktime="20s"), "thorough": B(100, 2, 3000, shrinktime="60s")},
     ],
 }
 
